@@ -64,7 +64,8 @@ struct Station {
     void start_handshake() { ap_state = 1; ap_tries = 0; for (int i = 0; i < 32; ++i) anonce[i] = (uint8_t)w.rng.next(); installed_ap = false; send_m1(); }
     // the station re-associates: the authenticator starts over with a new per-association state (replay counter from 0, new ANonce),
     // whatever stage the previous exchange had reached; keys of the old association are no longer used
-    void reassociate() { replay = 0; ++ap_timer; ap_state = 0; ap_tries = 0; installed_ap = installed_sta = false; sta_has_ptk = false; last_m1_seen = 0; last_m1_rc = 0; m3_rc = 0; start_handshake(); }
+    uint64_t replay_base = 0;      // where this authenticator starts counting (64-bit field: large values, 2^32 crossings and the top bit are all legal)
+    void reassociate() { replay = replay_base; ++ap_timer; ap_state = 0; ap_tries = 0; installed_ap = installed_sta = false; sta_has_ptk = false; last_m1_seen = 0; last_m1_rc = 0; m3_rc = 0; start_handshake(); }
     void send_m1() { EapolKey k; k.version = (uint8_t)(b.cipher == CCMP ? 2 : 1); k.desc_type = b.cipher == CCMP ? 2 : 254; k.key_info = (uint16_t)(desc_version() | 0x08 | 0x80); k.key_len = b.cipher == CCMP ? 16 : 32; k.replay = ++replay; last_m1_rc = k.replay; memcpy(k.nonce, anonce, 32); air(true, k, "m1"); arm(); }
     void send_m3() { EapolKey k; k.version = (uint8_t)(b.cipher == CCMP ? 2 : 1); k.desc_type = b.cipher == CCMP ? 2 : 254; k.key_info = (uint16_t)(desc_version() | 0x08 | 0x40 | 0x80 | 0x100 | (b.cipher == CCMP ? (0x200 | 0x1000) : 0)); k.key_len = b.cipher == CCMP ? 16 : 32; k.replay = ++replay; m3_rc = k.replay; memcpy(k.nonce, anonce, 32);
         k.data = w.rng.bytes(b.cipher == CCMP ? 56 : 24); set_mic(k, ap_ptk); air(true, k, "m3"); arm(); }
@@ -118,7 +119,8 @@ struct WlanEngine : Engine {
             if (b.cipher >= TKIP) b.pmk = pmk_cached(b.pass, b.ssid); }
         std::vector<std::unique_ptr<Station> > stas;
         for (int i = 0; i < nb; ++i) { int ns = (int)cfg.small(1, 4); for (int s = 0; s < ns; ++s) { Mac m = Mac::of((uint8_t)(0x40 + stas.size())); m.b[0] = 0; m.b[1] = 0x0d; m.b[2] = (uint8_t)cfg.below(3); std::unique_ptr<Station> st(new Station(w, w.bss[i], (int)stas.size(), m));
-                bool wrong = w.bss[i].cipher >= TKIP && cfg.chance(0.12); st->pmk_sta = wrong ? pmk_cached(PASSES[(cfg.below(3) + 1) % 4], w.bss[i].ssid + "x") : w.bss[i].pmk; if (wrong) w.faults["fault.station_with_wrong_passphrase"]++; st->fresh_snonce = cfg.chance(0.5); st->proc_delay = (int64_t)cfg.range(100, 4000); stas.push_back(std::move(st)); } }
+                bool wrong = w.bss[i].cipher >= TKIP && cfg.chance(0.12); st->pmk_sta = wrong ? pmk_cached(PASSES[(cfg.below(3) + 1) % 4], w.bss[i].ssid + "x") : w.bss[i].pmk; if (wrong) w.faults["fault.station_with_wrong_passphrase"]++; { Rng rb = root.fork(fmt("replaybase%zu", stas.size()).c_str()); static const uint64_t bases[6] = { 0, 0, 0xfffffffdULL, 0x100000000ULL, 0x7fffffffffffff00ULL, 0xffffffffffff0000ULL }; st->replay_base = bases[rb.below(6)]; if (st->replay_base > 0xffffffffULL) st->replay_base += rb.below(1000); st->replay = st->replay_base; }
+                st->fresh_snonce = cfg.chance(0.5); st->proc_delay = (int64_t)cfg.range(100, 4000); stas.push_back(std::move(st)); } }
         // ---- script
         auto payload_len = [&]() { return (size_t)cfg.pick(std::vector<int>{ 0, 1, 15, 16, 17, 32, 48, 100, 255, 256, 1000, (int)cfg.range(0, 300), (int)cfg.range(0, 300), tier == "thorough" ? 2300 : 600 }); };
         for (auto& b : w.bss) { int nbeac = (int)cfg.range(cfgmode == 0 ? 1 : 0, 2); for (int i = 0; i < nbeac; ++i) { int64_t t = (int64_t)cfg.below(3000) + i * 100000; Bss* bp = &b; w.q.after(t, [&w, bp, i]() { w.to_tap(beacon(bp->bssid, bp->ssid, (uint16_t)(i + 1), true, bp->cipher == CCMP), "beacon", bp->id, -1); }); } }
